@@ -189,9 +189,8 @@ class RegExp:
         result = vm.search(string, self.lastIndex if self._global else 0)
         if result:
             if self._global:
-                self.lastIndex = (
-                    result.index + len(result[0]) if result[0] else result.index + 1
-                )
+                # lastIndex becomes the end of the match, also for an empty match
+                self.lastIndex = result.index + len(result[0])
             return True
 
         if self._global:
@@ -242,9 +241,8 @@ class RegExp:
 
         if result:
             if self._global:
-                end_cp = (
-                    result.index + len(result[0]) if result[0] else result.index + 1
-                )
+                # lastIndex becomes the end of the match, also for an empty match
+                end_cp = result.index + len(result[0])
                 if self._unicode:
                     self.lastIndex = _codepoint_to_utf16_index(string, end_cp)
                 else:
